@@ -5,7 +5,7 @@ a=$1; b=$2; shift 2
 checks=${@:-$(python3 -c "import json;print(' '.join(c['property_id'] for c in json.load(open('MANIFEST.json'))['checks']))")}
 for c in $checks; do
   for s in $(seq $a $b); do
-    out=$(VERIF_SEED=$s timeout 900 ./check $c --no-lean 2>&1); rc=$?
+    out=$(VERIF_SEED=$s flock /tmp/verif_repo_apply.lock timeout 900 ./check $c --no-lean 2>&1); rc=$?   # (the lock: seeded-change evaluations patch /repo)
     if [ $rc -ne 0 ]; then echo "SOAK-FAIL $c seed=$s rc=$rc :: $(echo "$out" | grep -v '^VIOLATION' | tail -1)"; echo "$out" | grep VIOLATION | head -3; fi
   done
   echo "soak $c seeds $a..$b done"
